@@ -326,7 +326,12 @@ def do_check(a, prop, mod, work, base, t0):
     # ------------------------------------------------------------ 4. health gate
     health = None
     if hasattr(mod, "health") and not violations:
-        health = mod.health(classes, sum(r["evaluations"] for r in reports), tier)
+        # the gate looks at the generated cases only: an exhaustive scope has its own, fixed distribution
+        gen_classes = {}
+        for r in reports:
+            for k, v in r.get("classes_generated", {}).items():
+                gen_classes[k] = gen_classes.get(k, 0) + v
+        health = mod.health(gen_classes, sum(r.get("evaluations_generated", 0) for r in reports), tier)
 
     # ------------------------------------------------------------ 5. evidence
     distinct = len(hashes) + count_only
